@@ -62,5 +62,53 @@ silent
 printf "OP JK %.17g\n", dt
 continue
 end
+break reb_integrator_mercurius_interaction_step
+commands
+silent
+printf "OP HI %.17g\n", dt
+continue
+end
+break reb_integrator_mercurius_jump_step
+commands
+silent
+printf "OP HJ %.17g\n", dt
+continue
+end
+break reb_integrator_mercurius_kepler_step
+commands
+silent
+printf "OP HK %.17g\n", dt
+continue
+end
+break reb_integrator_mercurius_com_step
+commands
+silent
+printf "OP HC %.17g\n", dt
+continue
+end
+break reb_integrator_trace_interaction_step
+commands
+silent
+printf "OP HI %.17g\n", dt
+continue
+end
+break reb_integrator_trace_jump_step
+commands
+silent
+printf "OP HJ %.17g\n", dt
+continue
+end
+break reb_integrator_trace_kepler_step
+commands
+silent
+printf "OP HK %.17g\n", _dt
+continue
+end
+break reb_integrator_trace_com_step
+commands
+silent
+printf "OP HC %.17g\n", dt
+continue
+end
 run
 quit
